@@ -1103,6 +1103,11 @@ func (m *repoManager) repoFromID(repoID dvid.RepoID) (*repoT, error) {
 // newRepo creates a new Repo with a new unique UUID unless one is provided as last parameter.
 func (m *repoManager) newRepo(alias, description string, assign *dvid.UUID, passcode string) (*repoT, error) {
 	if assign != nil {
+		// The root UUID prefixes the keys of the branch head cache (root UUID + branch name) and
+		// NilUUID means "no UUID": only accept a well-formed UUID.
+		if _, err := dvid.StringToUUID(string(*assign)); err != nil {
+			return nil, fmt.Errorf("bad UUID %q assigned to new repo: %v", *assign, err)
+		}
 		m.repoMutex.RLock()
 		// Make sure there's not already a repo with this UUID.
 		if _, found := m.repos[*assign]; found {
